@@ -180,7 +180,7 @@ def mpg_encode(groups):
     d = []
     for cpgn, payload in groups:
         d += [(2 << 5) | ((cpgn >> 16) & 3), (cpgn >> 8) & 0xFF, cpgn & 0xFF, len(payload)] + list(payload)
-    L = fd_len(len(d))
+    L = fd_len(len(d)) if len(d) <= 64 else len(d)
     pad = 0
     while len(d) < L:
         d.append(0 if pad < 3 else 0xAA)
